@@ -39,7 +39,9 @@
   zero-length span on both sides.
 
   Not modelled: allocation failure (C10), number detection (`@pragma numstrdetect on`,
-  outside the claim), IGNORECASE (default 0), non-ASCII space characters.
+  outside the claim), non-ASCII space characters and non-ASCII case folding under IGNORECASE,
+  a floating-point FS across a change of CONVFMT (the C picks the mode from the current string
+  form and the regular expression from the one at assignment).
 -/
 namespace Hawk.Rec
 
@@ -72,15 +74,23 @@ def slice (b : Str) (off len : Nat) : Str := (b.drop off).take len
 
 def spanText (b : Str) (f : Fld) : Str := slice b f.off f.len
 
-/-- globals that the record code reads.  OFS is stored twice in the C: the variable itself
-    (read by hawk_rtx_truncrec through HAWK_RTX_STACK_GBL) and the cached copy `rtx->gbl.ofs`
-    (read by recomp_record_fields). -/
+/-- globals that the record code reads.
+    * `fs`  = the value of FS; `none` when it holds nil (`FS = x` with x unset), for which
+      split_record takes a blank.  Any other value (string, number, byte string, character)
+      enters through its string form.
+    * `ofs` = `rtx->gbl.ofs`, the text made of OFS when it was assigned (nil gives "").  It is
+      what recomp_record_fields, print and - with patches/truncrec-uses-cached-ofs.diff -
+      hawk_rtx_truncrec join with; the value of the OFS variable itself is not read again.
+    * `strip` = STRIPRECSPC, `ic` = IGNORECASE > 0. -/
 structure Env where
-  fs : Str := [' ']
-  ofsG : Str := [' ']
-  ofsC : Str := [' ']
+  fs : Option Str := some [' ']
+  ofs : Str := [' ']
   strip : Bool := false
+  ic : Bool := false
 deriving Repr, DecidableEq
+
+/-- "get FS" at the top of split_record -/
+def Env.fsText (e : Env) : Str := e.fs.getD [' ']
 
 inductive Err where
   | einval   -- negative value into NF
@@ -88,10 +98,11 @@ inductive Err where
   | enomem   -- the field table cannot be grown to the requested size
 deriving Repr, DecidableEq
 
-/-- regex oracle: `m fs line from` = the match of the regular expression compiled from the FS
-    text `fs` in `line` when the search starts at `from` (absolute start, length).  The C calls
+/-- regex oracle: `m ic fs line from` = the match of the regular expression compiled from the
+    FS text `fs` (`rtx->gbl.fs[ic]`: the case-insensitive one when IGNORECASE is on) in `line`
+    when the search starts at `from` (absolute start, length).  The C calls
     hawk_rtx_matchrexwithoocs with the whole line as context and the suffix as subject. -/
-abbrev Matcher := Str → Str → Nat → Option (Nat × Nat)
+abbrev Matcher := Bool → Str → Str → Nat → Option (Nat × Nat)
 
 /-! ## tokenisers (lib/misc-imp.h).  All positions are absolute offsets into the buffer. -/
 
@@ -112,12 +123,18 @@ def tokBlank (line : Str) (p : Nat) : Tok :=
     next := if s3.isEmpty then none else some (p + (s.length - s3.length)) }
 
 /-- tokenize_xchars, __DELIM_NOSPACES with a one-character delimiter (also a tab or newline:
-    "delim_len == 1 && delim[0] != ' '"), IGNORECASE off -/
-def tokChar (c : Char) (line : Str) (p : Nat) : Tok :=
+    "delim_len == 1 && delim[0] != ' '"); `q` = "is not the delimiter" -/
+def tokCharP (q : Char → Bool) (line : Str) (p : Nat) : Tok :=
   let s := line.drop p
-  let w := s.takeWhile (fun x => x != c)
+  let w := s.takeWhile q
   { off := p, len := w.length,
     next := if w.length ≥ s.length then none else some (p + w.length + 1) }
+
+/-- ... IGNORECASE off: `c == *d` -/
+def tokChar (c : Char) : Str → Nat → Tok := tokCharP (fun x => x != c)
+
+/-- ... IGNORECASE on: `to_xch_upper(*p) == to_xch_upper(*d)` (ASCII) -/
+def tokCharI (c : Char) : Str → Nat → Tok := tokCharP (fun x => x.toUpper != c.toUpper)
 
 /-- tokenize_xchars, __DELIM_EMPTY (FS is the empty string): every character is a token -/
 def tokEach (line : Str) (p : Nat) : Tok :=
@@ -262,18 +279,18 @@ def fsMode (fs : Str) : FsMode :=
 
 /-- the read-only tokeniser for a non-quoted mode -/
 def roTok (m : Matcher) (e : Env) : Str → Nat → Tok :=
-  match fsMode e.fs with
+  match fsMode e.fsText with
   | .each => tokEach
   | .blank => tokBlank
-  | .char c => tokChar c
-  | .regex => tokRex (m e.fs) e.strip
+  | .char c => if e.ic then tokCharI c else tokChar c
+  | .regex => tokRex (m e.ic e.fsText) e.strip
   | .quoted .. => tokBlank  -- not used
 
 /-- split_record; expects `flds = []` (hawk_rtx_clrrec has run).  When there is no field at
     all the C returns before it stores NF. -/
 def splitRecord (m : Matcher) (e : Env) (r : Rec) : Rec :=
   let n := r.line.length
-  match fsMode e.fs with
+  match fsMode e.fsText with
   | .quoted a b c d =>
     let res := splitLoop (tokQ a b c d) n true r.line 0
     { r with linew := res.1, inw := true, flds := res.2,
@@ -315,15 +332,16 @@ def relayout (ol : Nat) : Nat → List Fld → List Fld
 def setfld (e : Env) (r : Rec) (idx : Nat) (str : Str) : Rec :=
   let lv := idx - 1
   let texts := recompTexts r.flds lv str
-  let line := joinSep e.ofsC texts
-  let fl := relayout e.ofsC.length 0 (texts.map fun t => { text := t, off := 0, len := t.length })
+  let line := joinSep e.ofs texts
+  let fl := relayout e.ofs.length 0 (texts.map fun t => { text := t, off := 0, len := t.length })
   { r with line := line, inw := false, flds := fl, nf := (texts.length : Int), d0 := line }
 
-/-- hawk_rtx_truncrec for `n ≤ nflds`: the new text is built from the SPANS -/
+/-- hawk_rtx_truncrec for `n ≤ nflds`: the new text is built from the SPANS, joined with the
+    same cached OFS text as in `setfld` -/
 def truncrec (e : Env) (r : Rec) (n : Nat) : Rec :=
   let keep := r.flds.take n
-  let tmp := joinSep e.ofsG (keep.map (spanText r.buf))
-  { r with d0 := tmp, line := tmp, inw := false, flds := relayout e.ofsG.length 0 keep }
+  let tmp := joinSep e.ofs (keep.map (spanText r.buf))
+  { r with d0 := tmp, line := tmp, inw := false, flds := relayout e.ofs.length 0 keep }
 
 /-- `NF = n` (set_global, case HAWK_GBL_NF, reached by an assignment) -/
 def setNF (e : Env) (r : Rec) (n : Int) : Except Err Rec :=
@@ -387,9 +405,10 @@ inductive Op where
   | setnf (n : Int)                -- NF = n
   | rewrite (s : Str)              -- sub/gsub on $0 that substituted something; s = result
   | getline (s : Str)              -- plain getline / main-loop read that returned record s
-  | ofs (x : Str)                  -- OFS = x
-  | fs (y : Str)                   -- FS = y
+  | ofs (x : Str)                  -- OFS = v; x = the string form of v (a string, a number, a byte string, "" for nil)
+  | fs (y : Option Str)            -- FS = v; the string form of v, `none` for nil
   | strip (b : Bool)               -- STRIPRECSPC = b
+  | ic (b : Bool)                  -- IGNORECASE = b
   | ofmt (x : Str)                 -- OFMT = x (must not touch the record or OFS)
   | read (j : Nat)                 -- evaluate $j (by value and by reference)
   | readnf                         -- evaluate NF
@@ -413,9 +432,10 @@ def step (m : Matcher) (st : St) : Op → St
     | .error _ => st
   | .rewrite s => { st with r := setrec0 m st.e st.r s }
   | .getline s => { st with r := setrec0 m st.e st.r s }
-  | .ofs x => { st with e := { st.e with ofsG := x, ofsC := x } }
+  | .ofs x => { st with e := { st.e with ofs := x } }
   | .fs y => { st with e := { st.e with fs := y } }
   | .strip b => { st with e := { st.e with strip := b } }
+  | .ic b => { st with e := { st.e with ic := b } }
   | .ofmt _ => st
   | .read _ => st     -- also: passing `$j` or NF to an `&` parameter the function does not assign
   | .readnf => st
